@@ -466,6 +466,16 @@ class Interp:
                 env[st.target.id] = res
             elif isinstance(st.target, ast.Attribute):
                 self.assign(st.target, res, fr, st, aug=True)
+            elif isinstance(st.target, ast.Subscript):
+                # numpy does not accumulate repeated indices in `a[idx] op= v`
+                parts = st.target.slice.elts if isinstance(st.target.slice, ast.Tuple) else [st.target.slice]
+                for p_ in parts:
+                    if isinstance(p_, (ast.Slice, ast.Constant)):
+                        continue
+                    iv = self.eval(p_, fr)
+                    if (isinstance(iv, Arr) and iv.elem == "i" and iv.axes and not ({"perm", "unique"} & set(iv.tags))) or isinstance(iv, Lst):
+                        self.event("fancy-inplace", st, f"in-place update through the index array {iv!r}: repeated indices are applied only once "
+                                   f"(numpy buffers a[idx] op= v)", index=repr(iv))
             return
         if isinstance(st, ast.Return):
             fr.returns.append(self.eval(st.value, fr) if st.value is not None else NoneV())
@@ -756,6 +766,17 @@ class Interp:
             return self.eval_call(node, fr)
         if isinstance(node, ast.ListComp) or isinstance(node, ast.GeneratorExp) or isinstance(node, ast.SetComp):
             return self.eval_comp(node, fr)
+        if isinstance(node, ast.DictComp):
+            saved = dict(fr.env)
+            for g in node.generators:
+                it = self.eval(g.iter, fr)
+                self.assign(g.target, self.iter_element(it, g.iter, fr), fr, node)
+                for c in g.ifs:
+                    self.eval(c, fr)
+            self.eval(node.key, fr)
+            v = self.eval(node.value, fr)
+            fr.env = saved
+            return Dct({}, default=v)
         if isinstance(node, ast.Lambda):
             return Fun("lambda", (fr.unit, node), env=fr.env, K=fr.K, C=fr.C)
         if isinstance(node, ast.JoinedStr):
